@@ -88,9 +88,12 @@ def fold_stmt(ctx, tg, key, stmt, types, context):
             return "?"
         return NotImplemented
     _, outs = backend.fold(ctx, key, [stmt, Vec(list(types)), context, Vec()], hooks=[hook], type_env={"Backend": tg.crate + "::Backend"}, max_steps=400000)
+    msg = backend.fold_verdict(outs, "R-STMT: %s at %s" % (key.split(" as ")[0].lstrip("<").split("::")[-1], tg.b))
+    if msg:
+        return msg
     outs = [o for o in outs if not getattr(o, "diverged", None)]
-    if len(outs) != 1 or not isinstance(outs[0].final.locals[4], Vec):
-        return None
+    if not isinstance(outs[0].final.locals[4], Vec):
+        raise AnalysisError("R-STMT: the instruction list of %s is not concrete" % key)
     return outs[0].final.locals[4].items
 
 
@@ -199,8 +202,8 @@ def rule_stmt(b):
                 stmt = Adt(adt, "Let", {"var": ident("v", 500), "ty": T, "tag": ident(tag, 0), "args": tctx(args), "next": Sym("next"), "free_vars_next": NONE})
                 codes = fold_stmt(ctx, tg, key, stmt, types, tctx(kept_ctx(r) + args))
                 what = "let v = %s(%d args) after %d kept" % (tag, len(chis), r)
-                if codes is None:
-                    bad.append(what + ": could not be folded")
+                if isinstance(codes, str):
+                    bad.append(what + ": " + codes)
                     continue
                 jl = _jump_length(tg, pos)
 
@@ -226,8 +229,8 @@ def rule_stmt(b):
                 stmt = Adt(adt, "Literal", {"lit": lit, "var": ident("v", 500), "next": Sym("next"), "free_vars_next": NONE})
                 codes = fold_stmt(ctx, tg, key, stmt, types, tctx(kept_ctx(r)))
                 what = "lit v <- %d after %d kept" % (lit, r)
-                if codes is None:
-                    bad.append(what + ": could not be folded")
+                if isinstance(codes, str):
+                    bad.append(what + ": " + codes)
                     continue
 
                 def spec(R, init, ref_m, r=r, lit=lit):
@@ -253,8 +256,8 @@ def rule_stmt(b):
                                            "var": ident("v", 500), "next": Sym("next"), "free_vars_next": NONE})
                     codes = fold_stmt(ctx, tg, key, stmt, types, tctx(kept_ctx(r)))
                     what = "v <- x%d %s x%d after %d kept" % (i, opn, j, r)
-                    if codes is None:
-                        bad.append(what + ": could not be folded")
+                    if isinstance(codes, str):
+                        bad.append(what + ": " + codes)
                         continue
 
                     def spec(R, init, ref_m, r=r, i=i, j=j, sem=sem):
@@ -280,8 +283,8 @@ def rule_stmt(b):
                 context = tctx(kept_ctx(r) + [Adt(AX + "context::ContextBinding", "ContextBinding", {"var": ident("v", 500), "chi": Adt(AX + "context::Chirality", "Prd", {}), "ty": T})])
                 codes = fold_stmt(ctx, tg, key, stmt, tys, context)
                 what = "switch v {%s} after %d kept" % (", ".join(tags), r)
-                if codes is None:
-                    bad.append(what + ": could not be folded")
+                if isinstance(codes, str):
+                    bad.append(what + ": " + codes)
                     continue
                 labs = _labs(codes)
                 marks = _marks(codes)
@@ -372,8 +375,8 @@ def rule_stmt(b):
                 tys = types + [decl("U2", [(d, a) for d, a in methods])]
                 codes = fold_stmt(ctx, tg, key, stmt, tys, tctx(kept_ctx(r) + env))
                 what = "create v = (%d captured){D0, D1} after %d kept" % (len(env_chis), r)
-                if codes is None:
-                    bad.append(what + ": could not be folded")
+                if isinstance(codes, str):
+                    bad.append(what + ": " + codes)
                     continue
                 labs = _labs(codes)
                 marks = _marks(codes)
@@ -443,8 +446,8 @@ def rule_stmt(b):
                 stmt = Adt(adt, "Invoke", {"var": ident("v", 500), "tag": ident(tag, 0), "ty": ty_decl(tyname), "args": tctx(args)})
                 codes = fold_stmt(ctx, tg, key, stmt, tys, tctx(args + [var_b]))
                 what = "invoke v.%s with %d arguments" % (tag, na)
-                if codes is None:
-                    bad.append(what + ": could not be folded")
+                if isinstance(codes, str):
+                    bad.append(what + ": " + codes)
                     continue
                 m0, init = mem._init(tg, na + 1)
                 paths = isa.explore(ctx, arch, codes, m0.clone(), max_paths=4)
@@ -480,8 +483,8 @@ def rule_stmt(b):
                                             "thenc": Sym("then"), "elsec": Sym("else")})
                     codes = fold_stmt(ctx, tg, key, stmt, types, tctx(kept_ctx(r)))
                     what = "if x%d %s %s after %d kept" % (i, sort, "x%d" % j if two else "0", r)
-                    if codes is None:
-                        bad.append(what + ": could not be folded")
+                    if isinstance(codes, str):
+                        bad.append(what + ": " + codes)
                         continue
                     marks = _marks(codes)
                     labs = _labs(codes)
@@ -550,8 +553,8 @@ def rule_stmt(b):
                                                                             "ty": Adt(AX + "types::Ty", "I64", {}) if chi == "Ext" else T}) for nm, (oi, chi) in old.items()]
                 codes = fold_stmt(ctx, tg, key, stmt, types, tctx(octx))
                 what = "substitute (%s) := (a, p, q) behind %d unchanged variables" % (", ".join(pat), base)
-                if codes is None:
-                    bad.append(what + ": could not be folded")
+                if isinstance(codes, str):
+                    bad.append(what + ": " + codes)
                     continue
                 counts = {nm: pat.count(nm) for nm in old}
 
